@@ -7,7 +7,9 @@ from ..world import World
 from .. import ini
 from .. import gen
 
-POOL = ['web', 'Web', 'WEB', 'w b', '', 'ünï', 'a.b', 'x*', 'api', 'Api']
+POOL = ['web', 'Web', 'WEB', 'w b', '', 'ünï', 'a.b', 'x*', 'api', 'Api',
+        # letters whose lower() and casefold() differ (sharp s, long s)
+        'Straße', 'ſide']
 
 
 def marker_of(name):
@@ -236,6 +238,10 @@ class C15Episode(Episode):
                 continue
             answers = []
             for variant in (nm, nm.upper(), nm.lower(), nm.swapcase()):
+                if variant.lower() != nm.lower():
+                    # not a pure change of letter case (the upper case of a
+                    # sharp s is two other letters)
+                    continue
                 a = self.ask('status', {'name': variant})
                 b = self.ask('numprocesses', {'name': variant})
                 answers.append((a.get('status') if isinstance(a, dict)
